@@ -18,6 +18,14 @@ def showOut : Out → String
 
 def hexes (ws : List String) : Option (List Bytes) := ws.mapM parseHex
 
+/-- `UnmarshalJSON(text)`: the model's JSON decoder is applied to the text here; texts outside the modelled
+    codec are answered `delegated` in `handle`. -/
+def unjsonOp (h : String) : Option Op :=
+  (parseHex h).bind (fun t => match PB.Base64.jsonDec t with
+    | .ok raw => some (.unmarshalJSON (some raw))
+    | .err => some (.unmarshalJSON none)
+    | .delegated => none)
+
 def parseOp : List String → Option Op
   | ["append", h] => (parseHex h).map .append
   | ["prepend", h] => (parseHex h).map .prepend
@@ -47,38 +55,90 @@ def parseOp : List String → Option Op
   | ["n64"] => some .getNextN64
   | ["holds"] => some .holdsData
   | ["len"] => some .length
+  | ["json"] => some .marshalJSON
+  -- c.Append(varint.Pack8/16/32(n)) / c.Prepend(…): slices produced by the narrow encoders
+  | ["appendpack8", n] => n.toNat?.map (fun n => .append (PB.Varint.pack8 n))
+  | ["appendpack16", n] => n.toNat?.map (fun n => .append (PB.Varint.pack16 n))
+  | ["appendpack32", n] => n.toNat?.map (fun n => .append (PB.Varint.pack32 n))
+  | ["prependpack8", n] => n.toNat?.map (fun n => .prepend (PB.Varint.pack8 n))
+  | ["prependpack16", n] => n.toNat?.map (fun n => .prepend (PB.Varint.pack16 n))
+  | ["prependpack32", n] => n.toNat?.map (fun n => .prepend (PB.Varint.pack32 n))
+  | ["jsonm"] => some .marshalJSON          -- the same method reached through json.Marshal(c)
+  | ["unjsonm", h] => unjsonOp h            -- … through json.Unmarshal(text, c)
+  | ["unjson", h] => unjsonOp h
+  | ["writeto", n] => n.toNat?.map .writeAllTo
   | _ => none
 
 structure St where
-  c : Option C := none
-  q : PB.ByteQueue.Q := []
-  /-- contents of the most recently split-off container (GetAsContainer / GetNextBlockAsContainer /
-      PeekContainer), as they were at the time of the split: a split container is a snapshot -/
-  kept : Option Bytes := none
+  /-- the live containers of the case (model) and the byte queues next to them (spec); `cur` is the one the
+      single-container lines act on -/
+  w : List C := []
+  qw : List PB.ByteQueue.Q := []
+  cur : Nat := 0
+  /-- the most recently split-off container (GetAsContainer / GetNextBlockAsContainer / PeekContainer) as the
+      model built it, and its contents at the time of the split: a split container is a snapshot -/
+  kept : Option (C × Bytes) := none
+
+open PB.ByteQueue (WOp)
+
+/-- one world operation on model and spec side by side -/
+def world (s : St) (op : WOp) (kept : Option (C × Bytes)) : St × String :=
+  let r := wstep s.w op
+  let r' := PB.ByteQueue.wstep s.qw op
+  let s' := { s with w := r.1, qw := r'.1, kept := kept }
+  if r.2 = r'.2 then (s', showOut r.2) else (s', s!"SPECDIFF model={showOut r.2} spec={showOut r'.2}")
+
+def generic (s : St) (ws : List String) : St × String :=
+  match s.w[s.cur]?, parseOp ws with
+  | some c, some op =>
+    let kept := match op with
+      | .getAsContainer n => (match (getAsContainer c n).2 with | .ok nc => some (nc, nc.bytes) | .error _ => s.kept)
+      | .getNextBlockAsContainer => (match (getNextBlockAsContainer c).2 with | .ok nc => some (nc, nc.bytes) | .error _ => s.kept)
+      | .peekContainer n => (match peekContainer c n with | some nc => some (nc, nc.bytes) | none => s.kept)
+      | _ => s.kept
+    world s (.on s.cur op) kept
+  | _, _ => (s, "bad-op")
 
 def handle (s : St) (line : String) : St × String :=
   match PB.Drv.words line with
   | "new" :: hs => match hexes hs with
-    | some ds => ({ c := some (new ds), q := ds.flatten, kept := none }, "ok")
+    | some ds => ({ w := [new ds], qw := [ds.flatten], cur := 0, kept := none }, "ok")
     | none => (s, "bad-op")
-  | ["dump"] => match s.c with
-    | some c => (s, if c.bytes = s.q then s!"b {toHex c.bytes}" else s!"SPECDIFF dump model={toHex c.bytes} spec={toHex s.q}")
+  | "newc" :: hs => match hexes hs with
+    | some ds => ({ w := [newContainer ds], qw := [ds.flatten], cur := 0, kept := none }, "ok")
     | none => (s, "bad-op")
-  | ["kdump"] => match s.kept with
-    | some b => (s, s!"b {toHex b}")
+  | "also" :: hs => match hexes hs with     -- a further container; the current one stays current
+    | some ds => if s.w.isEmpty then (s, "bad-op") else world s (.newc ds) s.kept
+    | none => (s, "bad-op")
+  | ["sel", i] => match i.toNat? with
+    | some i => if i < s.w.length then ({ s with cur := i }, "ok") else (s, "bad-op")
+    | none => (s, "bad-op")
+  | ["appendfrom", j] => match j.toNat? with   -- current.AppendContainer(container j), j in whatever state it is
+    | some j => if j < s.w.length ∧ s.cur < s.w.length then world s (.appendFrom s.cur j) s.kept else (s, "bad-op")
+    | none => (s, "bad-op")
+  | ["appendfromblock", j] => match j.toNat? with
+    | some j => if j < s.w.length ∧ s.cur < s.w.length then world s (.appendFromAsBlock s.cur j) s.kept else (s, "bad-op")
+    | none => (s, "bad-op")
+  | ["keepslot"] =>
+    -- the split-off container becomes a further live container (usable as an argument later)
+    match s.kept with
+    | some (nc, _) => if s.w.isEmpty then (s, "bad-op") else ({ s with w := s.w ++ [nc], qw := s.qw ++ [nc.bytes], kept := none }, "ok")
     | none => (s, "nil")
-  | ws => match s.c, parseOp ws with
-    | some c, some op =>
-      let r := step c op
-      let r' := PB.ByteQueue.step s.q op
-      let kept := match op, r.2 with
-        | .getAsContainer _, .bytes b => some b
-        | .getNextBlockAsContainer, .bytes b => some b
-        | .peekContainer _, .bytes b => some b
-        | _, _ => s.kept
-      if r.2 = r'.2 then ({ c := some r.1, q := r'.1, kept := kept }, showOut r.2)
-      else ({ c := some r.1, q := r'.1, kept := kept }, s!"SPECDIFF model={showOut r.2} spec={showOut r'.2}")
+  | [u, h] =>
+    if u = "unjson" ∨ u = "unjsonm" then
+    -- a JSON text outside the modelled codec (white space, escapes, arrays, …): not decided by the model
+    match parseHex h with
+    | some t => if PB.Base64.jsonDec t = .delegated then (s, "delegated") else generic s ["unjson", h]
+    | none => (s, "bad-op")
+    else generic s [u, h]
+  | ["dump"] => match s.w[s.cur]?, s.qw[s.cur]? with
+    | some c, some q => (s, if c.bytes = q then s!"b {toHex c.bytes}" else s!"SPECDIFF dump model={toHex c.bytes} spec={toHex q}")
     | _, _ => (s, "bad-op")
+  | ["held"] => (s, "same")   -- byte slices handed out earlier are values: they never change afterwards
+  | ["kdump"] => match s.kept with
+    | some (_, b) => (s, s!"b {toHex b}")
+    | none => (s, "nil")
+  | ws => generic s ws
 
 end PB.Drv.C16
 
